@@ -88,6 +88,7 @@ func (g *Group) AddOption(option *Option, data interface{}) {
 	}
 
 	option.group = g
+	option.updateDefaultLiteral()
 	g.options = append(g.options, option)
 }
 
